@@ -86,17 +86,26 @@ def size(eng, st, v):
     return r
 
 
+def define1(st, esort, fn, name='arr'):
+    """1-D array value given pointwise: a lambda term (beta-reduced by z3).  Lambda terms cannot occur in quantifier patterns,
+    so wherever an array is passed to an uninterpreted spec function it is first replaced by a defined constant
+    (Engine.pure)."""
+    q = z3.Int('q!d')
+    return z3.Lambda([q], to_z3(fn(q), esort))
+
+
+def define2(st, esort, fn, name='mat'):
+    x, y = z3.Int('x!d'), z3.Int('y!d')
+    return z3.Lambda([x], z3.Lambda([y], to_z3(fn(x, y), esort)))
+
+
 def materialise(eng, st, v):
     if isinstance(v, Ref):
         return v
     if isinstance(v, Row):
-        q = z3.Int('q!m')
-        body = to_z3(v.fn(q), v.esort)
-        return alloc(st, 1, z3.Lambda([q], body), (v.n,), v.esort)
+        return alloc(st, 1, define1(st, v.esort, v.fn), (v.n,), v.esort)
     if isinstance(v, Mat):
-        x, y = z3.Int('x!m'), z3.Int('y!m')
-        body = to_z3(v.fn(x, y), v.esort)
-        return alloc(st, 2, z3.Lambda([x], z3.Lambda([y], body)), v.shape, v.esort)
+        return alloc(st, 2, define2(st, v.esort, v.fn), v.shape, v.esort)
     raise OutOfSubset('materialise %r' % (v,))
 
 
@@ -150,6 +159,15 @@ def elementwise2(eng, st, f, a, b, esort=None):
     def fn1(q):
         return f(ra.fn(q) if ra else a, rb.fn(q) if rb else b)
     return Row(n, fn1, _res_sort(ra or a, rb or b, esort))
+
+
+def eq_mask(eng, st, arr, val):
+    """`ci == c` for a heap int array ci and a scalar c: boolean row that remembers (array term, value)."""
+    r = as_row(eng, st, arr)
+    v = to_z3(val, INT)
+    out = Row(r.n, lambda q, r=r, v=v: to_z3(r.fn(q), INT) == v, BOOL)
+    out.eqmeta = (st.heap[arr.oid].term, v)
+    return out
 
 
 def unpack(eng, st, val, k):
@@ -234,12 +252,19 @@ def getitem(eng, st, base, sl):
         elts = sl.elts if isinstance(sl, ast.Tuple) else None
         if elts is None:
             kind = _idx_kind(eng, st, sl)
+            if kind[0] == 'ix' and getattr(kind[1].rows, 'eqmeta', None) is not None and getattr(kind[1].cols, 'eqmeta', None) is not None and isinstance(base, Ref):
+                ra, rb = kind[1].rows.eqmeta, kind[1].cols.eqmeta
+                if not ra[0].eq(rb[0]):
+                    raise OutOfSubset('np.ix_ of masks over different label arrays')
+                out = Mat(m.shape, lambda x, y: (_ for _ in ()).throw(OutOfSubset('elementwise use of a block')), m.esort)
+                out.aggmeta = (eng.pure(st.heap[base.oid].term), eng.pure(ra[0]), ra[1], rb[1], m.shape[0])
+                return out
             if kind[0] == 'ix':
                 p, q2 = kind[1].rows, kind[1].cols
                 if kind[1].same and isinstance(base, Ref) and kind[1].perm_term is not None:
                     # M[np.ix_(p, p)] with p a heap int array: spec function ixperm carries the permutation lemmas
                     M = st.heap[base.oid].term
-                    return alloc(st, 2, ixperm(M, kind[1].perm_term), (p.n, p.n), m.esort)
+                    return alloc(st, 2, ixperm(eng.pure(M), eng.pure(kind[1].perm_term)), (p.n, p.n), m.esort)
                 return Mat((p.n, q2.n), lambda x, y, m=m, p=p, q2=q2: m.fn(p.fn(x), q2.fn(y)), m.esort)
             if kind[0] == 'int':
                 bounds(eng, st, kind[1], m.shape[0], 'readrow:%s' % ast.unparse(sl)[:24])
@@ -273,6 +298,13 @@ def getitem(eng, st, base, sl):
         if k0[0] == 'all' and k1[0] == 'fancy':
             f = k1[1]
             return Mat((m.shape[0], f.n), lambda x, y, m=m, f=f: m.fn(x, f.fn(y)), m.esort)
+        if (k0[0] == 'all' and k1[0] == 'mask') or (k0[0] == 'mask' and k1[0] == 'all'):
+            mk = k1[1] if k0[0] == 'all' else k0[1]
+            if getattr(mk, 'eqmeta', None) is None or not isinstance(base, Ref):
+                raise OutOfSubset('column/row selection by a mask that is not `labels == value`')
+            out = Mat(m.shape, lambda x, y: (_ for _ in ()).throw(OutOfSubset('elementwise use of a mask-selected submatrix')), m.esort)
+            out.selmeta = ('cols' if k0[0] == 'all' else 'rows', eng.pure(st.heap[base.oid].term), eng.pure(mk.eqmeta[0]), mk.eqmeta[1], m.shape[0])
+            return out
         if k0[0] == 'fancy' and k1[0] == 'fancy':
             f0, f1 = k0[1], k1[1]
             return Row(f0.n, lambda q, m=m, f0=f0, f1=f1: m.fn(f0.fn(q), f1.fn(q)), m.esort)
@@ -301,7 +333,7 @@ def setitem(eng, st, base, sl, val, node):
             v = to_z3(val, o.esort) if not isinstance(val, (Ref, Row)) else None
             if v is None:
                 raise OutOfSubset('masked store of array')
-            o.term = z3.Lambda([q], z3.If(z3.And(q >= 0, q < to_z3(o.shape[0], INT), truth(mk.fn(q))), v, z3.Select(old, q)))
+            o.term = define1(st, o.esort, lambda q: z3.If(z3.And(q >= 0, q < to_z3(o.shape[0], INT), truth(mk.fn(q))), v, z3.Select(old, q)))
             return
         if kind[0] == 'fancy':
             f = kind[1]
@@ -311,7 +343,7 @@ def setitem(eng, st, base, sl, val, node):
             v = to_z3(val, o.esort) if not isinstance(val, (Ref, Row)) else None
             if v is None:
                 raise OutOfSubset('fancy store of array')
-            o.term = z3.Lambda([q], z3.If(z3.Exists([t], z3.And(t >= 0, t < to_z3(f.n, INT), to_z3(f.fn(t), INT) == q)), v, z3.Select(old, q)))
+            o.term = define1(st, o.esort, lambda q: z3.If(z3.Exists([t], z3.And(t >= 0, t < to_z3(f.n, INT), to_z3(f.fn(t), INT) == q)), v, z3.Select(old, q)))
             return
         raise OutOfSubset('1-D store kind %s' % kind[0])
     elts = sl.elts if isinstance(sl, ast.Tuple) else None
@@ -325,7 +357,7 @@ def setitem(eng, st, base, sl, val, node):
             if isinstance(val, (Ref, Row, Mat)):
                 raise OutOfSubset('2-D masked store of an array')
             v = to_z3(val, o.esort)
-            o.term = z3.Lambda([x], z3.Lambda([y], z3.If(z3.And(inb, truth(mk.fn(x, y))), v, z3.Select(z3.Select(old, x), y))))
+            o.term = define2(st, o.esort, lambda x, y: z3.If(z3.And(x >= 0, x < to_z3(o.shape[0], INT), y >= 0, y < to_z3(o.shape[1], INT), truth(mk.fn(x, y))), v, z3.Select(z3.Select(old, x), y)))
             return
         if kind[0] == 'pair':
             i_ref, j_ref = kind[3]
@@ -340,7 +372,7 @@ def setitem(eng, st, base, sl, val, node):
             else:
                 vv = to_z3(val, o.esort)
                 vfn = lambda xx, yy: vv
-            o.term = z3.Lambda([x], z3.Lambda([y], z3.If(z3.And(inb, truth(cond(x, y))), vfn(x, y), z3.Select(z3.Select(old, x), y))))
+            o.term = define2(st, o.esort, lambda x, y: z3.If(z3.And(x >= 0, x < to_z3(o.shape[0], INT), y >= 0, y < to_z3(o.shape[1], INT), truth(cond(x, y))), vfn(x, y), z3.Select(z3.Select(old, x), y)))
             return
         raise OutOfSubset('2-D store with one index (%s)' % kind[0])
     k0, k1 = _idx_kind(eng, st, elts[0]), _idx_kind(eng, st, elts[1])
@@ -355,20 +387,20 @@ def setitem(eng, st, base, sl, val, node):
         bounds(eng, st, k0[1], o.shape[0], 'storerow:%s' % ast.unparse(node)[:24])
         if isinstance(val, (Ref, Row)):
             r = as_row(eng, st, val)
-            o.term = z3.Store(old, k0[1], z3.Lambda([y], z3.If(z3.And(y >= 0, y < to_z3(o.shape[1], INT)), to_z3(r.fn(y), o.esort), z3.Select(z3.Select(old, k0[1]), y))))
+            o.term = z3.Store(old, k0[1], define1(st, o.esort, lambda y: z3.If(z3.And(y >= 0, y < to_z3(o.shape[1], INT)), to_z3(r.fn(y), o.esort), z3.Select(z3.Select(old, k0[1]), y))))
         else:
             v = to_z3(val, o.esort)
-            o.term = z3.Store(old, k0[1], z3.Lambda([y], z3.If(z3.And(y >= 0, y < to_z3(o.shape[1], INT)), v, z3.Select(z3.Select(old, k0[1]), y))))
+            o.term = z3.Store(old, k0[1], define1(st, o.esort, lambda y: z3.If(z3.And(y >= 0, y < to_z3(o.shape[1], INT)), v, z3.Select(z3.Select(old, k0[1]), y))))
         return
     if k0[0] == 'all' and k1[0] == 'int':
         bounds(eng, st, k1[1], o.shape[1], 'storecol:%s' % ast.unparse(node)[:24])
         c = k1[1]
         if isinstance(val, (Ref, Row)):
             r = as_row(eng, st, val)
-            o.term = z3.Lambda([x], z3.If(z3.And(x >= 0, x < to_z3(o.shape[0], INT)), z3.Store(z3.Select(old, x), c, to_z3(r.fn(x), o.esort)), z3.Select(old, x)))
+            o.term = define2(st, o.esort, lambda x, y: z3.If(z3.And(x >= 0, x < to_z3(o.shape[0], INT), y == c), to_z3(r.fn(x), o.esort), z3.Select(z3.Select(old, x), y)))
         else:
             v = to_z3(val, o.esort)
-            o.term = z3.Lambda([x], z3.If(z3.And(x >= 0, x < to_z3(o.shape[0], INT)), z3.Store(z3.Select(old, x), c, v), z3.Select(old, x)))
+            o.term = define2(st, o.esort, lambda x, y: z3.If(z3.And(x >= 0, x < to_z3(o.shape[0], INT), y == c), v, z3.Select(z3.Select(old, x), y)))
         return
     if k0[0] in ('mask', 'fancy') and k1[0] == 'all' or k0[0] == 'all' and k1[0] in ('mask', 'fancy'):
         rowsel = k0[0] != 'all'
@@ -390,7 +422,7 @@ def setitem(eng, st, base, sl, val, node):
                 return z3.And(ix >= 0, ix < to_z3(sel.n, INT), truth(sel.fn(ix)))
             return z3.Exists([t], z3.And(t >= 0, t < to_z3(sel.n, INT), to_z3(sel.fn(t), INT) == ix))
         inb = z3.And(x >= 0, x < to_z3(o.shape[0], INT), y >= 0, y < to_z3(o.shape[1], INT))
-        o.term = z3.Lambda([x], z3.Lambda([y], z3.If(z3.And(inb, hit(x if rowsel else y)), v, z3.Select(z3.Select(old, x), y))))
+        o.term = define2(st, o.esort, lambda x, y: z3.If(z3.And(x >= 0, x < to_z3(o.shape[0], INT), y >= 0, y < to_z3(o.shape[1], INT), hit(x if rowsel else y)), v, z3.Select(z3.Select(old, x), y)))
         return
     raise OutOfSubset('2-D store kinds %s,%s' % (k0[0], k1[0]))
 
@@ -638,7 +670,7 @@ def np_fill_diagonal(eng, st, args, kw, node):
     x = z3.Int('x!fd')
     old = o.term
     n = to_z3(o.shape[0], INT)
-    o.term = z3.Lambda([x], z3.If(z3.And(x >= 0, x < n), z3.Store(z3.Select(old, x), x, v), z3.Select(old, x)))
+    o.term = define2(st, o.esort, lambda x, y: z3.If(z3.And(x >= 0, x < n, y == x), v, z3.Select(z3.Select(old, x), y)))
     o.meta = {}
     return None
 
@@ -653,7 +685,9 @@ def np_ix_(eng, st, args, kw, node):
             st.pc.append(ta.term == tb.term)
             same = True
     pt = st.heap[a.oid].term if isinstance(a, Ref) else None
-    return Opaque('ix', rows=as_row(eng, st, a), cols=as_row(eng, st, b), same=same, perm_term=pt)
+    ra = a if isinstance(a, Row) else as_row(eng, st, a)
+    rb = b if isinstance(b, Row) else as_row(eng, st, b)
+    return Opaque('ix', rows=ra, cols=rb, same=same, perm_term=pt)
 
 
 def np_argsort(eng, st, args, kw, node):
@@ -668,11 +702,36 @@ def np_argsort(eng, st, args, kw, node):
 
 def np_sum(eng, st, args, kw, node):
     v = args[0]
+    axis = kw.get('axis', args[1] if len(args) > 1 else None)
+    if isinstance(v, Mat) and getattr(v, 'aggmeta', None) is not None and axis is None:
+        W, c, la, lb, n = v.aggmeta
+        return core.agg(W, c, la - 1, lb - 1, to_z3(n, INT))
+    if isinstance(v, Mat) and getattr(v, 'selmeta', None) is not None:
+        kind, W, c, lab, n = v.selmeta
+        nn = to_z3(n, INT)
+        if kind == 'cols' and axis == 1:      # np.sum(W[:, ci == lab], axis=1)[x] = sum_{y: ci[y]=lab} W[x][y]
+            return Row(n, lambda x: core.modsum(W, c, x, lab - 1, nn), REAL)
+        if kind == 'rows' and axis == 0:      # np.sum(W[ci == lab, :], axis=0)[x] = sum_{y: ci[y]=lab} W[y][x]
+            return Row(n, lambda x: core.modsumT(W, c, x, lab - 1, nn), REAL)
+        raise OutOfSubset('np.sum of a mask-selected submatrix along this axis')
+    if isinstance(v, Mat) and getattr(v, 'dotmeta', None) is not None and axis is None:
+        X, Y, mm = v.dotmeta
+        return core.sumdot(X, Y, to_z3(mm, INT))
+    if ndim_of(eng, st, v) == 2:
+        ref = v if isinstance(v, Ref) else materialise(eng, st, as_mat(eng, st, v))
+        o = st.heap[ref.oid]
+        t, n0, n1 = eng.pure(o.term), o.shape[0], o.shape[1]
+        if axis is None:
+            return core.tsum(t, to_z3(n0, INT))
+        if axis == 1:
+            return Row(n0, lambda x: core.sum1(z3.Select(t, x), to_z3(n1, INT)), REAL)
+        if axis == 0:
+            return Row(n1, lambda y: core.csum(t, y, to_z3(n0, INT)), REAL)
     if ndim_of(eng, st, v) == 1 and not kw and len(args) == 1:
         r = as_row(eng, st, v)
         if r.esort == BOOL:
             ref = materialise(eng, st, r)
-            return core.cntb(st.heap[ref.oid].term, to_z3(r.n, INT))
+            return core.cntb(eng.pure(st.heap[ref.oid].term), to_z3(r.n, INT))
     raise OutOfSubset('np.sum (no spec yet for this shape)')
 
 
@@ -695,6 +754,8 @@ def np_max(eng, st, args, kw, node):
     w = fresh('argmax', INT)
     st.pc.append(z3.ForAll([q], z3.Implies(z3.And(q >= 0, q < n), to_z3(r.fn(q)) <= mx)))
     st.pc.append(z3.Implies(n > 0, z3.And(w >= 0, w < n, to_z3(r.fn(w)) == mx)))
+    if isinstance(v, Ref):
+        st.ghost['_last_max'] = (v.oid, st.heap[v.oid].term.get_id(), mx, st.heap[v.oid].term)
     return mx
 
 
@@ -708,6 +769,10 @@ def np_argmax(eng, st, args, kw, node):
     st.pc.append(z3.ForAll([q], z3.Implies(z3.And(q >= 0, q < n), to_z3(r.fn(q)) <= to_z3(r.fn(w)))))
     # first maximal index
     st.pc.append(z3.ForAll([q], z3.Implies(z3.And(q >= 0, q < w), to_z3(r.fn(q)) < to_z3(r.fn(w)))))
+    lm = st.ghost.get('_last_max')
+    if lm is not None and isinstance(v, Ref) and lm[0] == v.oid and lm[1] == st.heap[v.oid].term.get_id():
+        # np.max of the very same array value was taken before: the maximum is attained at the argmax
+        st.pc.append(z3.Implies(n > 0, to_z3(r.fn(w)) == lm[2]))
     return w
 
 
@@ -727,6 +792,48 @@ def np_mod(eng, st, args, kw, node):
     if isinstance(a, (Ref, Row, Mat)):
         return elementwise2(eng, st, lambda x, y: to_z3(x, INT) % to_z3(y, INT), a, b, esort=INT)
     return to_z3(a, INT) % to_z3(b, INT)
+
+
+def np_trace(eng, st, args, kw, node):
+    v = args[0]
+    ref = v if isinstance(v, Ref) else materialise(eng, st, as_mat(eng, st, v))
+    o = st.heap[ref.oid]
+    return core.trace1(eng.pure(o.term), to_z3(o.shape[0], INT))
+
+
+def np_dot(eng, st, args, kw, node):
+    a, b = args
+    if ndim_of(eng, st, a) == 2 and ndim_of(eng, st, b) == 2:
+        ra = a if isinstance(a, Ref) else materialise(eng, st, as_mat(eng, st, a))
+        rb = b if isinstance(b, Ref) else materialise(eng, st, as_mat(eng, st, b))
+        oa, ob = st.heap[ra.oid], st.heap[rb.oid]
+        out = Mat((oa.shape[0], ob.shape[1]), lambda x, y: (_ for _ in ()).throw(OutOfSubset('elementwise use of a matrix product')), REAL)
+        out.dotmeta = (eng.pure(oa.term), eng.pure(ob.term), oa.shape[0])
+        return out
+    raise OutOfSubset('np.dot of these shapes')
+
+
+def np_unique(eng, st, args, kw, node):
+    """np.unique(x, return_inverse=True) -> (u, inv): inv[y] is the rank of x[y] among the distinct values: 0 <= inv[y] < k,
+    inv[y] == inv[z] iff x[y] == x[z], inv[y] < inv[z] iff x[y] < x[z], every rank in [0, k) is attained."""
+    if not kw.get('return_inverse'):
+        raise OutOfSubset('np.unique without return_inverse')
+    r = as_row(eng, st, args[0])
+    n = to_z3(r.n, INT)
+    k = fresh('nuniq', INT)
+    inv = fresh('uinv', A1I)
+    wit = z3.Function('uwit!%d' % next(core._fresh), INT, INT)
+    y, zz, t = z3.Ints('y!u z!u t!u')
+    iy, iz = z3.Select(inv, y), z3.Select(inv, zz)
+    st.pc.append(z3.And(k >= 0, k <= n, z3.Implies(n > 0, k >= 1)))
+    st.pc.append(z3.ForAll([y], z3.Implies(z3.And(y >= 0, y < n), z3.And(iy >= 0, iy < k)), patterns=[z3.Select(inv, y)]))
+    st.pc.append(z3.ForAll([y, zz], z3.Implies(z3.And(y >= 0, y < n, zz >= 0, zz < n),
+                                               z3.And((iy == iz) == (to_z3(r.fn(y), INT) == to_z3(r.fn(zz), INT)), (iy < iz) == (to_z3(r.fn(y), INT) < to_z3(r.fn(zz), INT)))),
+                           patterns=[z3.MultiPattern(z3.Select(inv, y), z3.Select(inv, zz))]))
+    st.pc.append(z3.ForAll([t], z3.Implies(z3.And(t >= 0, t < k), z3.And(wit(t) >= 0, wit(t) < n, z3.Select(inv, wit(t)) == t)), patterns=[wit(t)]))
+    u = alloc(st, 1, fresh('uvals', A1I), (k,), INT)
+    st.ghost['unique_witness_last'] = wit
+    return TupleV((u, alloc(st, 1, inv, (n,), INT, {'unique_k': k, 'unique_wit': wit})))
 
 
 def np_array(eng, st, args, kw, node):
